@@ -229,6 +229,51 @@ def body_linearity(env):
                        s_ * (r.temp['duct_mw'][w, c] - T0), tol=1e-9, key='not_linear_in_power')
 
 
+def body_timepoints(env):
+    """Public path, several time points (enumeration, no symbolic dimension): a Reactor built for time point k of an input that
+    lists one user power file per time point carries, in every assembly, the power of file k -- total and delivered over a real
+    sweep -- integrated here from the numbers written to that file."""
+    import os
+    import shutil
+    import tempfile
+    from symx import geninp, npshim
+    import dassh
+    ntp = env.params['ntp']
+    d = tempfile.mkdtemp(prefix='dassh-verif-c03.')
+    try:
+        asms = {'a': geninp.default_asm(2), 'b': geninp.default_asm(3, P=0.0052, D=0.0042, Dw=0.0008)}
+        assign = [('a', 1, 1, 'FLOWRATE=0.4'), ('b', 2, 1, 'FLOWRATE=0.5'), ('a', 2, 3, 'FLOWRATE=0.3')]
+        L = 0.05
+        lin = [(lambda k, t=t: 1000.0 * (1 + 0.37 * t) * (1 + 0.1 * k)) for t in range(ntp)]
+        other = [10.0 * (1 + 0.5 * t) for t in range(ntp)]
+        for t in range(ntp):
+            inp = geninp.write_case(d, asms, assign, gap_model='none', core_len=L, pin_power=lin[t], other_power=other[t])
+            os.replace(os.path.join(d, 'power.csv'), os.path.join(d, 'power_t%d.csv' % t))
+        txt = open(inp).read().replace('user_power = power.csv', 'user_power = ' + ', '.join('power_t%d.csv' % t for t in range(ntp)))
+        open(inp, 'w').write(txt)
+        res = []
+        with npshim.unpatched():
+            for t in range(ntp):
+                r = dassh.Reactor(dassh.DASSH_Input(inp), path=os.path.join(d, 'out%d' % t), write_output=False, timestep=t)
+                r.temperature_sweep()
+                for a in r.assemblies:
+                    nring = a.rodded.n_ring
+                    npin = 3 * nring * (nring - 1) + 1
+                    nsc = a.rodded.subchannel.n_sc['coolant']['total']
+                    nd = a.rodded.subchannel.n_sc['duct']['total']
+                    want = L * (sum(lin[t](k) for k in range(npin)) + other[t] * (nsc + nd))
+                    got = float(a.total_power)
+                    dlv = float(sum(v for v in a._power_delivered.values()))
+                    res.append((t, a.id, want, got, dlv))
+    finally:
+        shutil.rmtree(d, ignore_errors=True)
+    for t, aid, want, got, dlv in res:
+        env.holds('time point %d, assembly %d: assigned power is that of the power file of this time point' % (t, aid),
+                  abs(got - want) <= 1e-9 * want, key='power_of_another_time_point')
+        env.holds('time point %d, assembly %d: power delivered over the sweep is that of the power file of this time point' % (t, aid),
+                  abs(dlv - want) <= 1e-9 * want, key='power_of_another_time_point')
+
+
 def instances(tier):
     inst = []
     zfm2 = [0.0, 10.0, 25.0]
@@ -267,6 +312,8 @@ def instances(tier):
                              params={'nasm': nasm, 'user_total': user}))
     for n, d in (((2, 1), (2, 2)) if tier == 'quick' else ((2, 1), (2, 2), (3, 1), (3, 2), (4, 1))):
         inst.append(dict(label='linearity[rings=%d,ducts=%d]' % (n, d), body=body_linearity, params={'n_ring': n, 'n_duct': d}, timeout_ms=120000))
+    for ntp in (2, 3):
+        inst.append(dict(label='time-points[%d user power files]' % ntp, body=body_timepoints, params={'ntp': ntp}, check_vacuity=False))
     return inst
 
 
